@@ -75,6 +75,16 @@ def cases(tier, seed):
                     if 'strip' in ' '.join(w) and t != t.rstrip():
                         continue
                     yield {'text': t, 'akind': ak, 'wrap': w, 'mem': m}
+    # ---- a cached text that outgrows the memory buffer while it is written piecewise, with a multi-byte character
+    # before the point where it moves to disk (every source kind, several chunking wrappers, buffer sizes below the size)
+    for t in ('é\nb\n', 'aé\nbb\ncc\n', 'a\u2028b\nc\n', 'ü' * 5 + '\n' + 'x\n' * 5, 'ab\n' * 3 + 'é\n' + 'cd\n' * 3,
+              'line é %d\n' * 30 % tuple(range(30))):
+        n = len(t.encode())
+        for ak in AKINDS:
+            for w in (['filter constant true'], ['filter -line-nums 1:'], ['identity', 'filter constant true'],
+                      ['replace z z']):
+                for m in sorted({1, 2, 3, 4, 7, max(1, n // 2), max(1, n - 1)}):
+                    yield {'text': t, 'akind': ak, 'wrap': w, 'mem': m}
     # ---- borrowed workloads: the cases of C05 (matchers/transformers over many source kinds) and C10 (programs, stdin
     # built from several parts, program output as text source) are executed here with M4 switched on and a small
     # memory buffer; only M4 decides (the borrowed checks' own oracles are ignored in this check)
@@ -151,7 +161,8 @@ def build(case, d):
         nl = ''
     wrap = ''
     if case['wrap']:
-        wrap = '-transformed-by ( ' + ' | '.join(case['wrap']) + ' ) '
+        # (-line-nums ranges run to the end of the line: close the parenthesis on the next line)
+        wrap = '-transformed-by ( ' + ' | '.join(case['wrap']) + ('\n ) ' if 'line-nums' in case['wrap'][-1] else ' ) ')
 
     lines = ref_lines(t)
     K = len(lines)
